@@ -8,7 +8,7 @@ props = sorted({p for c in cases for p in c['checks'] + c['missed']})
 res = {}
 out = tempfile.mkdtemp()
 for p in props:
-    r = subprocess.run([V + '/bin/daecheck', '-p', p, '-tier', 'thorough', '-out', out], capture_output=True, text=True)
+    r = subprocess.run([V + '/bin/daecheck', '-p', p, '-tier', 'thorough', '-out', out], capture_output=True, text=True, errors='replace')
     for ln in r.stdout.splitlines():
         m = re.match(r'\s+selftest (\S+)\s+expect=(\S+)\s+outcome=(\S+)\s*(.*)', ln)
         if m:
